@@ -1902,7 +1902,16 @@ class Router:
         ------
         NotImplementedError : Version not implemented
         """
-        self.process_basic_header(packet)
+        try:
+            self.process_basic_header(packet)
+        except NotImplementedError:
+            # Unsupported version / header type: reported to the link layer, which logs and discards
+            raise
+        except Exception as e:  # pylint: disable=broad-exception-caught
+            # Truncated, corrupted or otherwise undecodable frame (or a payload an upper entity
+            # could not handle): discard it; nothing received may stop the receive path.
+            print(
+                f"Discarding undecodable GeoNetworking packet: {type(e).__name__}: {e}")
 
     def duplicate_address_detection(self, gn_addr: GNAddress) -> None:
         """
